@@ -342,7 +342,10 @@ func runAPICase(ac APICase) (*Fail, error) {
 			return fail(sigBase+"|process-exit", what+"\nthe API process terminated: "+how+"\nstderr tail:\n"+tailStr(ch.errb.String(), 1500), "C14"), nil
 		}
 		if err != nil && time.Since(t0) >= 19*time.Second {
-			return fail(sigBase+"|request-hangs", what+fmt.Sprintf("\nno answer within 20 s: %v", err), "C14"), nil
+			// ask the child for its goroutine dump: where is the request stuck?
+			syscall.Kill(ch.cmd.Process.Pid, syscall.SIGQUIT)
+			time.Sleep(500 * time.Millisecond)
+			return fail(sigBase+"|request-hangs", what+fmt.Sprintf("\nno answer within 20 s: %v\ngoroutines of the API process (filtered):\n%s", err, filterStacks(ch.errb.String())), "C14"), nil
 		}
 		// liveness of both APIs
 		if code, err := get("http://" + ch.ctrl + "/v1/volumes"); err != nil || code != 200 {
@@ -518,4 +521,23 @@ func headStr(s string, n int) string {
 		return s[:n]
 	}
 	return s
+}
+
+// filterStacks keeps the goroutines of a SIGQUIT dump that are inside jiva code.
+func filterStacks(dump string) string {
+	var out []string
+	for _, g := range strings.Split(dump, "\n\n") {
+		if strings.Contains(g, "openebs/jiva") && !strings.Contains(g, "monitorPing") && !strings.Contains(g, "CreateHoles") {
+			lines := strings.Split(g, "\n")
+			if len(lines) > 24 {
+				lines = lines[:24]
+			}
+			out = append(out, strings.Join(lines, "\n"))
+		}
+	}
+	r := strings.Join(out, "\n\n")
+	if len(r) > 6000 {
+		r = r[:6000]
+	}
+	return r
 }
